@@ -14,6 +14,8 @@ Only theorems + examples here.
 -/
 import VaxisModel.Props.C09
 import VaxisModel.Spec.KeyEvent
+import VaxisModel.Props.C09Uni
+import VaxisModel.Witness.F209
 
 namespace VaxisModel.Props.C09Sound
 open VaxisModel.Model.Key VaxisModel.Spec.KeyEnc VaxisModel.Gen.Keys
@@ -118,5 +120,35 @@ example : bindableEvent { keycode := 36, mods := metaBit, event := EventRepeat, 
 /-- The release case is really different (why it is excluded): `String()` omits the modifiers of a release. -/
 example : matchString asciiUni { keycode := 97, mods := ctrlBit, event := EventRelease }
     (keyString asciiUni { keycode := 97, mods := ctrlBit, event := EventRelease }) = false := by decide +kernel
+
+/-! ## The plain character key of any script, stated on the kitty protocol's own domain
+
+The kitty keyboard protocol reports a key by "the Unicode codepoint of the key in lower-case form" (its
+specification: "the codepoint used is always the lower-case (or more technically, un-shifted) version of the key").
+So a code point `c` with `ToLower c ≠ c` is not a kitty key code at all: the 27 title-case letters ᾈ … ῼ (general
+category Lt: `IsUpper` false, `ToLower` = ᾀ …), which `cross_protocol_char_plain` excluded through its hypothesis
+`∀ r, isLower r → toUpper r ≠ r → toUpper r ≠ c`, are outside the cross-protocol clause for that reason — the chord
+"the key ᾈ, unmodified" does not exist under the kitty encoding (a conforming terminal reports ᾀ + Shift).  With the
+hypothesis stated as the protocol states it (`toLower c = c`) and the table law `UpperHasLower`, nothing else is left out. -/
+
+/-- **cross_protocol_char_plain_keycode.** `cross_protocol_char_plain` with the ∀-hypothesis replaced by: `c` is a
+    kitty key code (`toLower c = c`) and the `unicode` tables satisfy `UpperHasLower`. -/
+theorem cross_protocol_char_plain_keycode (u : Uni) (hlaw : UpperHasLower u) (c : Int) (f : Form)
+    (hv : validRune c = true) (hdel : c ≠ 127) (hup : u.isUpper c = false)
+    (hfun : lookup2 (c, 117) functional = none)
+    (hf : f.withShifted = false ∧ f.withBase = false)
+    (hfffd : f.withText = false → c ≠ 0xFFFD)
+    (hkey : u.toLower c = c) :
+    let kL := decodeKey u (.print [c])
+    let kK := decodeKey u (kittySeq c 117 { key := c, text := [c] } f)
+    keyString u kL = keyString u kK ∧ ∀ b m, «matches» u kL b m = «matches» u kK b m :=
+  VaxisModel.Props.C09Uni.cross_protocol_char_plain u c f hv hdel hup hfun hf hfffd
+    (fun _ r hl hne heq => by have h := hlaw r hl hne; rw [heq] at h; exact h hkey)
+
+/-- The witness of `Witness.F209` (ᾀ U+1F80 / ᾈ U+1F88 with Go's values) satisfies the law, and ᾈ is not its own
+    lower case: it is excluded by `toLower c = c`, by nothing else. -/
+example : VaxisModel.Witness.F209.greekUni.toLower 8072 ≠ 8072 ∧
+    VaxisModel.Witness.F209.greekUni.toLower (VaxisModel.Witness.F209.greekUni.toUpper 8064) ≠
+      VaxisModel.Witness.F209.greekUni.toUpper 8064 := by decide
 
 end VaxisModel.Props.C09Sound
